@@ -91,6 +91,7 @@ fn main() {
     "C14" => vprop::c14::run(&cfg),
     "C15" => vprop::c15::run(&cfg),
     "C16" => vprop::c16::run(&cfg),
+    "C17" => vprop::c17::run(&cfg),
     "C18" => vprop::c18::run(&cfg),
     "C19" => vprop::c19::run(&cfg),
     "C20" => vprop::c20::run(&cfg),
